@@ -411,8 +411,26 @@ func (fx *FX) evalCall(env *Env, c ECall) Val {
 			return VBool{not(sel(fx.entryAllocFor(env), a.Ref))}
 		case VPtr:
 			return VBool{not(sel(fx.entryAllocFor(env), a.Ref))}
+		case VIface:
+			return VBool{not(sel(fx.entryAllocFor(env), a.Box))}
 		case VStr, VSeq:
 			return VBool{tTrue}
+		}
+	case "ishmac":
+		if h, ok := argv(0).(VIface); ok {
+			return VBool{eq(h.Tag, num(fx.u.typeTag(hmacTagType)))}
+		}
+	case "hmacalg":
+		if h, ok := argv(0).(VIface); ok {
+			return VInt{sel(sel(env.st.H, h.Box), num(0))}
+		}
+	case "hmackey":
+		if h, ok := argv(0).(VIface); ok {
+			return VSeq{sel(sel(env.st.Hs, h.Box), num(0))}
+		}
+	case "hmacmsg":
+		if h, ok := argv(0).(VIface); ok {
+			return VSeq{sel(sel(env.st.Hs, h.Box), num(1))}
 		}
 	case "aliases":
 		a, ok1 := argv(0).(VSlice)
